@@ -43,12 +43,14 @@ Explained(e) ==
     [] e.op = "fill" -> GoodB(e, BFill(e.pre, e.x))
     [] e.op = "fill_band" -> IF Acc_FillBand(e.pre, e.kb) THEN GoodB(e, BFillBand(e.pre, e.kb, e.x)) ELSE e.panic
     [] e.op = "neg" -> GoodRB(e, BNeg(e.pre))
-    [] e.op = "add" -> IF SameKind(e.pre, e.b) THEN GoodRB(e, BAdd(e.pre, e.b)) ELSE e.panic
-    [] e.op = "sub" -> IF SameKind(e.pre, e.b) THEN GoodRB(e, BSub(e.pre, e.b)) ELSE e.panic
+    \* operands of different geometry (equal n and m1 + m2 but another split, equal slot count but another n, ...): the
+    \* call refuses, or it delivers the sum / difference of the dense twins - never a slot-by-slot combination
+    [] e.op = "add" -> IF SameKind(e.pre, e.b) THEN GoodRB(e, BAdd(e.pre, e.b)) ELSE e.panic \/ (SameBand(e.post, e.pre) /\ DenseLin(e.rb, e.pre, e.b, 1))
+    [] e.op = "sub" -> IF SameKind(e.pre, e.b) THEN GoodRB(e, BSub(e.pre, e.b)) ELSE e.panic \/ (SameBand(e.post, e.pre) /\ DenseLin(e.rb, e.pre, e.b, -1))
     [] e.op = "mul_scalar" -> GoodRB(e, BScale(e.pre, e.s))
     [] e.op = "div_scalar" -> GoodRB(e, BDivS(e.pre, e.s))
-    [] e.op = "add_assign" -> IF SameKind(e.pre, e.b) THEN GoodB(e, BAdd(e.pre, e.b)) ELSE e.panic
-    [] e.op = "sub_assign" -> IF SameKind(e.pre, e.b) THEN GoodB(e, BSub(e.pre, e.b)) ELSE e.panic
+    [] e.op = "add_assign" -> IF SameKind(e.pre, e.b) THEN GoodB(e, BAdd(e.pre, e.b)) ELSE e.panic \/ DenseLin(e.post, e.pre, e.b, 1)
+    [] e.op = "sub_assign" -> IF SameKind(e.pre, e.b) THEN GoodB(e, BSub(e.pre, e.b)) ELSE e.panic \/ DenseLin(e.post, e.pre, e.b, -1)
     [] e.op = "mul_assign" -> GoodB(e, BScale(e.pre, e.s))
     [] e.op = "div_assign" -> GoodB(e, BDivS(e.pre, e.s))
     \* the scalar shifts legitimately touch padding; in band they add the constant
@@ -56,7 +58,8 @@ Explained(e) ==
     [] e.op = "sub_scalar_assign" -> GoodB(e, BShift(e.pre, -e.s))
     [] e.op = "matvec" -> IF Acc_BMatVec(e.pre, e.v) THEN ~e.panic /\ SameSeq(e.rv, BMatVec(e.pre, e.v)) ELSE e.panic
     \* complex operands as real and imaginary parts: (A+iB)(v+iw) = (Av - Bw) + i(Aw + Bv)
-    [] e.op = "matvec_cx" -> /\ ~e.panic
+    [] e.op = "matvec_cx" -> IF Len(e.v) # e.pre.n THEN e.panic ELSE      \* (a vector of another size is refused)
+                             /\ ~e.panic
                              /\ LET A == ToDense(e.pre)
                                     Bi == ToDense(e.prei)
                                     av == MatVec(A, e.v)
@@ -73,7 +76,8 @@ Explained(e) ==
     [] e.op = "det" -> ~e.panic /\ e.rq[2] = 1 /\ e.rq[1] = DetFF(ToDense(e.pre))
     \* an exact solution is accepted as such; otherwise the system must be singular (the property promises nothing there)
     [] e.op = "solve" -> LET D == ToDense(e.pre) IN
-                         IF ~e.panic /\ Checkable(e.xs, e.L) /\ ResidualZero(D, e.xs, e.L, e.b) THEN TRUE
+                         IF Len(e.b) # e.pre.n THEN e.panic          \* a right-hand side of another size is refused
+                         ELSE IF ~e.panic /\ Checkable(e.xs, e.L) /\ ResidualZero(D, e.xs, e.L, e.b) THEN TRUE
                          ELSE DetFF(D) = 0
     \* ---- Gaussian-integer data on which the complex float arithmetic is exact: judged like Rat, over Gaussian rationals ----
     [] e.op = "det_cx" -> ~e.panic /\ e.rq[2] = 1 /\ e.rqi[2] = 1 /\ <<e.rq[1], e.rqi[1]>> = CDetFF(ToDense(e.pre), ToDense(e.prei))
@@ -114,7 +118,12 @@ After(e) == CASE e.op = "set" -> BSet(e.pre, e.i, e.j, e.x)
 \* value of one part after event e, given the previous model value v of that part
 NextPart(e, v, ok) ==
     IF e.op = "built" THEN (IF e.panic THEN v ELSE e.want)
+    ELSE IF ~IsSeq(e) THEN v                                                \* (stand-alone events: another object)
     ELSE IF ~ok THEN (IF Has(e, "post") THEN e.post ELSE v)                 \* re-synchronise on the logged state
+    \* a refused call leaves the object as it was (the following events must start from the model's unchanged value).  An
+    \* accepted sum with an operand of another geometry has been verified against the dense twins by the event's own check
+    ELSE IF e.op \in Mutators /\ e.panic THEN v
+    ELSE IF e.op \in {"add_assign", "sub_assign"} /\ ~SameKind(e.pre, e.b) THEN e.post
     ELSE IF e.op \in Mutators THEN After(e)
     ELSE IF e.op \in {"resize", "new", "empty"} THEN e.post
     ELSE v
